@@ -44,6 +44,7 @@ def env():
 # lifting of Python numbers to z3 terms
 
 PI = z3.Real("pi")
+PI_ZERO = z3.RealVal(1)
 PI_AXIOMS = [PI > z3.RealVal("3.14159265358979"), PI < z3.RealVal("3.14159265358980")]
 _PI_MULTIPLES = {}
 for _num in range(-8, 9):
@@ -210,6 +211,10 @@ class SymReal:
         return self._rbin(o, lambda a, b: a - b)
 
     def __mul__(self, o):
+        if isinstance(o, SymReal) and ENV is not None and ENV.sqrt_sq:
+            sq = ENV.sqrt_sq.get(self.e.get_id())
+            if sq is not None and o.e.get_id() == self.e.get_id():
+                return SymReal(sq)  # sqrt(x)*sqrt(x) -> x
         return self._bin(o, lambda a, b: a * b)
 
     def __rmul__(self, o):
@@ -254,6 +259,8 @@ class SymReal:
         if p == int(p):
             n = int(p)
             if n >= 0:
+                if n == 2:
+                    return self * self
                 r = z3.RealVal(1)
                 for _ in range(n):
                     r = r * self.e
@@ -346,6 +353,8 @@ def _div(a, b):
         if ENV is not None:
             ENV.events.append({"kind": "division_by_constant_zero", "numerator": str(z3.simplify(a))[:120]})
         return DIVZERO(a)
+    if ENV is not None and ENV.mode == "sym" and ENV.abstract_div and not z3.is_rational_value(bs):
+        return ENV.abstract_quotient(a, b)
     return a / b
 
 
@@ -545,6 +554,8 @@ class Env:
         self.tags = {}
         self.resolve_abs = True
         self.hint_solver = False
+        self.abstract_div = False
+        self.logic = None
         self.guided_tries = 3
         self.use_ratfun = True
         self.rw_stats = {"atoms_rewritten": 0, "atoms_decided_by_normal_form": 0, "too_big": 0, "divisors_proved_nonzero": 0,
@@ -557,6 +568,8 @@ class Env:
         self.pos = 0
         self.pc = []
         self.inputs = {}
+        self.sqrt_sq = {}
+        self._keep = []
         self.domains = {}
         self.nice = []
         self.fresh = itertools.count()
@@ -571,6 +584,9 @@ class Env:
                     self.rw_stats[k] += self.rw.stats[k]
             from .ratfun import Rewriter
             self.rw = Rewriter()
+            self.defs = {}
+            self.def_constraints = []
+            self.rw_full = Rewriter(self.defs)
             self.nonzero_done = set()
 
     def _rewrite(self, c):
@@ -601,6 +617,55 @@ class Env:
                 self.solver.add(pz != 0)
         return c2
 
+    def abstract_quotient(self, a, b):
+        """a/b is replaced by a fresh variable q; its definition q*b == a is kept aside ('lazy'): branch feasibility and the
+        first attempt at every claim see q as unconstrained (an over-approximation, sound for 'unsat'); claims that are not
+        discharged abstractly are re-decided with all definitions asserted; identities are decided on the fully expanded
+        rational functions."""
+        self._nonzero(b)
+        q = z3.Real("q!%d" % next(self.fresh))
+        self.defs[q.get_id()] = (q, a, b)
+        self._keep.append(q)
+        self.def_constraints.append(q * b == a)
+        self.stats["abstracted_quotients"] = self.stats.get("abstracted_quotients", 0) + 1
+        return q
+
+    def _nonzero(self, b):
+        """prove (or assume and report) that a divisor is non-zero on this path"""
+        eq = self.rw_full.rewrite(b / 1 == 0) if False else None
+        N = self.rw_full.N
+        P, Q = N.rf(b)
+        self.rw_full.pop_divisors()
+        key = P.key()
+        if P.is_const() or key in self.nonzero_done:
+            return
+        self.nonzero_done.add(key)
+        r, _, _ = self._check(b == 0)
+        if r != "unsat":
+            r2 = r
+            if self.def_constraints:
+                r2, _, _ = self._check(b == 0, with_defs=True)
+            if r2 != "unsat":
+                self.rw_stats["divisors_assumed_nonzero"] += 1
+                if len(self.events) < 50:
+                    self.events.append({"kind": "divisor_may_be_zero(%s)" % r2, "divisor": str(z3.simplify(b))[:160]})
+                self.pc.append(b != 0)
+                self.solver.add(b != 0)
+                return
+        self.rw_stats["divisors_proved_nonzero"] += 1
+
+    def identical(self, a, b):
+        """a == b as rational functions of the inputs (abstract quotients expanded); decided by the normal form alone"""
+        if self.mode != "sym":
+            return bool(self.close(a, b))
+        from .ratfun import TooBig
+        try:
+            r = self.rw_full.rewrite(lift_real(a) - lift_real(b) == 0 * PI_ZERO)
+        except TooBig:
+            return False
+        self.rw_full.pop_divisors()
+        return z3.is_true(r)
+
     def add(self, c):
         """add a constraint to the path condition"""
         c = self._rewrite(c)
@@ -623,21 +688,32 @@ class Env:
             return -1 if r2 == "unsat" else 0
         return 0
 
-    def _check(self, *extra, timeout_ms=None):
-        s = self.solver
-        if timeout_ms is not None:
-            s.set("timeout", timeout_ms)
+    def _check(self, *extra, timeout_ms=None, with_defs=False):
         extra = [self._rewrite(e) for e in extra]
-        s.push()
+        if self.logic:
+            # non-incremental solver for the stated logic (z3's nlsat tactic is far stronger than the incremental core on NRA)
+            s = z3.SolverFor(self.logic)
+            s.set("timeout", timeout_ms if timeout_ms is not None else self.timeout_ms)
+            for a in self.solver.assertions():
+                s.add(a)
+        else:
+            s = self.solver
+            if timeout_ms is not None:
+                s.set("timeout", timeout_ms)
+            s.push()
         for e in extra:
             s.add(e)
+        if with_defs:
+            for d in self.def_constraints:
+                s.add(d)
         t = time.time()
         r = str(s.check())
         dt = time.time() - t
         m = s.model() if r == "sat" else None
-        s.pop()
-        if timeout_ms is not None:
-            s.set("timeout", self.timeout_ms)
+        if not self.logic:
+            s.pop()
+            if timeout_ms is not None:
+                s.set("timeout", self.timeout_ms)
         self.stats["queries"] += 1
         self.stats[r] += 1
         self.stats["solver_s"] += dt
@@ -761,8 +837,7 @@ class Env:
     def sqrt(self, x):
         for h in self.sqrt_hints:
             # perfect-square hint: accepted when x - h*h normalises to the zero polynomial (divisors proved non-zero)
-            eq = self._rewrite((x.e - h * h) / 1 == 0) if self.use_ratfun else None
-            if eq is not None and z3.is_true(eq):
+            if self.use_ratfun and self.identical(x, SymReal(h * h)):
                 return abs(SymReal(h))
             if self.hint_solver:
                 r, _, _ = self._check(x.e != h * h)
@@ -771,6 +846,8 @@ class Env:
         y = self.freshreal("sqrt")
         self.add(y >= 0)
         self.add(y * y == x.e)
+        self.sqrt_sq[y.get_id()] = x.e
+        self._keep.append(y)
         return SymReal(y)
 
     # ---- assumptions / claims
@@ -834,21 +911,40 @@ class Env:
             c.trivial += 0
             self.stats["normal_form_decided"] = self.stats.get("normal_form_decided", 0) + 1
             return True
+        wd = bool(self.def_constraints)
+        if wd:
+            # phase 1: abstract quotients unconstrained (over-approximation): unsat here is unsat with the definitions too
+            r, m, dt = self._check(neg, timeout_ms=min(self.final_timeout_ms, 10000))
+            c.solver_s += dt
+            if r == "unsat":
+                c.held += 1
+                self.stats["held_abstractly"] = self.stats.get("held_abstractly", 0) + 1
+                return True
+            from .ratfun import TooBig
+            try:
+                negf = self.rw_full.rewrite(z3.Not(e))
+                self.rw_full.pop_divisors()
+                if z3.is_false(z3.simplify(negf)):
+                    c.held += 1
+                    self.stats["normal_form_decided"] = self.stats.get("normal_form_decided", 0) + 1
+                    return True
+            except TooBig:
+                pass
         r, m = None, None
         guided_model = False
         if self.guided_tries:
             gneg = [neg] + ([lift_bool(margin)] if margin is not None else [])
-            r, m, dt = self._guided(gneg, self.guided_tries)
+            r, m, dt = self._guided(gneg, self.guided_tries, wd)
             c.solver_s += dt
             guided_model = r == "sat"
         if r != "sat":
-            r, m, dt = self._check(neg, timeout_ms=self.final_timeout_ms)
+            r, m, dt = self._check(neg, timeout_ms=self.final_timeout_ms, with_defs=wd)
             c.solver_s += dt
             if r == "unsat":
                 c.held += 1
                 return True
             if r == "unknown":
-                r, m, dt = self._guided([neg] + ([lift_bool(margin)] if margin is not None else []), 24)
+                r, m, dt = self._guided([neg] + ([lift_bool(margin)] if margin is not None else []), 24, wd)
                 c.solver_s += dt
                 guided_model = r == "sat"
                 if r != "sat":
@@ -865,7 +961,7 @@ class Env:
         if attempts is not None:
             attempts.append([neg] + self.nice)
         for extra in attempts or []:
-            r2, m2, dt2 = self._check(*extra, timeout_ms=min(self.final_timeout_ms, 10000))
+            r2, m2, dt2 = self._check(*extra, timeout_ms=min(self.final_timeout_ms, 10000), with_defs=wd)
             c.solver_s += dt2
             if r2 == "sat":
                 m = m2
@@ -880,7 +976,7 @@ class Env:
         """reachability twin: records that this point is reachable with a satisfiable path condition"""
         return self.claim("witness:" + name, False)
 
-    def _guided(self, neg, tries):
+    def _guided(self, neg, tries, with_defs=False):
         """counterexample search with most inputs pinned to moderate rationals (each try is a solver query; a model is
         only ever accepted from the solver and is replayed afterwards)"""
         import random
@@ -906,7 +1002,7 @@ class Env:
                 else:
                     val = Fraction(rng.randint(-12, 12), rng.choice([2, 3, 4]))
                 pins.append(self.inputs[n] == z3frac(val))
-            r, m, dt = self._check(*(list(neg) + pins), timeout_ms=2000)
+            r, m, dt = self._check(*(list(neg) + pins), timeout_ms=2000, with_defs=with_defs)
             total += dt
             if r == "sat":
                 return r, m, total
@@ -922,6 +1018,14 @@ class Env:
             except TypeError:
                 pass
         ea, eb = lift_real(a), lift_real(b)
+        if self.def_constraints and self.identical(a, b):
+            c = self.claims.get(name)
+            if c is None:
+                c = self.claims[name] = Claim(name)
+            c.paths += 1
+            c.held += 1
+            self.stats["normal_form_decided"] = self.stats.get("normal_form_decided", 0) + 1
+            return True
         d = ea - eb
         margin = SymBool(z3.Or(d > z3.RealVal("1/100"), d < -z3.RealVal("1/100")))
         return self.claim(name, SymBool(ea == eb), margin=margin)
